@@ -8,6 +8,19 @@ VERIF = os.path.dirname(os.path.dirname(os.path.abspath(__file__)))
 ALL = [f"C{i:02d}" for i in range(1, 21)]
 
 CHECKS = {
+    "C09": dict(
+        category="exploration",
+        technique="bounded-exhaustive enumeration of document x position x method on a live server, with shape validators and range-in-document checks",
+        text=("Exhaustive enumeration of (document, position, method): every sample source of the repository indexed as one "
+              "workspace, every token start/interior/end, one past every line end and past the end of file (thorough: every "
+              "column of every line) x the nine positional methods, the same on line-deleted / half-line / truncated mutants, "
+              "and every bundled intrinsic procedure, statement, keyword, module and module member name under the cursor in "
+              "five contexts. Every response must be a result of the prescribed shape (or null), and every range in it — and "
+              "in every publishDiagnostics emitted on open — must lie inside its target document."),
+        note=("Trusted: the hand-written shape validators in vf/shapes.py and the range check against the text the server "
+              "holds for the target. Documents outside the corpus and its single-line mutants are not covered."),
+        design="DESIGN.md §4 C09",
+    ),
     "C19": dict(
         category="fault_enumeration",
         technique="exhaustive enumeration of option x channel states, all ordered option pairs and a catalogue of faulty configuration files (incl. injected read errors) on the real initialize",
